@@ -673,3 +673,22 @@ Example C05_example_bytes_plain :
   /\ plain_fragment_b (ProtoPrintCorr.sb "verif") ProtoPrintFileExample.ex_imp ExPlain.ex_plain_file = true.
 Proof. exact example_plain. Qed.
 Print Assumptions C05_example_bytes_plain.
+
+(* the option-free fragment extended by services (proofs/ProtoPrintBytesLayoutSvcProofs.v): top-level declarations are
+   those of plain_fragment_b or services (empty or with methods `rpc Name(In) returns (Out) {}`, dotted relative or
+   absolute request / response names) without options. Layout is a lemma (T_method, T_service), the byte-level round
+   trip needs no computed layout test. Still under the computed test: map fields, extend blocks, every option form. *)
+From J5V.proofs Require Import ProtoPrintBytesLayoutSvcProofs.
+
+Theorem C05_bytes_roundtrip_plain_svc : forall gen imp D, wf_dfile imp D -> plain_svc_fragment_b gen imp D = true ->
+  let text := render_bytes gen imp D in
+  scan_text text = Some (print_file_tokens (to_symtab (dfile_symtab imp D)) D)
+  /\ exists D0, read_text imp text = Some (erase_dfile D0) /\ desc_equiv D D0 /\ wf_dfile imp D0.
+Proof. exact bytes_roundtrip_plain_svc. Qed.
+Print Assumptions C05_bytes_roundtrip_plain_svc.
+
+Example C05_example_bytes_plain_svc :
+  wf_dfile ProtoPrintFileExample.ex_imp ExSvc.ex_svc_file
+  /\ plain_svc_fragment_b (ProtoPrintCorr.sb "verif") ProtoPrintFileExample.ex_imp ExSvc.ex_svc_file = true.
+Proof. exact example_plain_svc. Qed.
+Print Assumptions C05_example_bytes_plain_svc.
